@@ -155,7 +155,11 @@ class AnyArray(np.lib.mixins.NDArrayOperatorsMixin):
         if not (np.isreal(val) or np.iscomplex(val)):
             raise TypeError("need arithmetic scalar")
         xp = np if device_id == -1 else cupy
-        return AnyArray(np.broadcast_to(xp.array(val), shape))
+        base = xp.array(val)
+        if isinstance(base, np.ndarray):
+            # all entries alias this 0-d array (reachable as `.base` of the view)
+            base.flags.writeable = False
+        return AnyArray(np.broadcast_to(base, shape))
 
     # ---Views, copies, rights, etc.---
     def lock(self):
